@@ -50,9 +50,11 @@ func (self *Transformer) infixExpr(node ast.AnalyzedInfixExpression, needsToBeSt
 	case pAst.MultiplyInfixOperator:
 		// Swap the operands
 		if node.Lhs.Type().Kind() == ast.IntTypeKind || node.Lhs.Type().Kind() == ast.FloatTypeKind {
+			// The operands keep their grouping: in `a / 3 * 2` the left operand is `a / 3`, and the printed variant
+			// `2 * a / 3` would be read as `(2 * a) / 3`.
 			variants = append(variants, ast.AnalyzedInfixExpression{
-				Lhs:        node.Rhs,
-				Rhs:        node.Lhs,
+				Lhs:        ast.AnalyzedGroupedExpression{Inner: node.Rhs, Range: node.Rhs.Span()},
+				Rhs:        ast.AnalyzedGroupedExpression{Inner: node.Lhs, Range: node.Lhs.Span()},
 				Operator:   node.Operator,
 				ResultType: node.ResultType,
 				Range:      node.Range,
